@@ -300,3 +300,15 @@ func chanName(v ssa.Value) string {
 	}
 	return v.Name()
 }
+
+// deliverFn: the function that hands an accepted DATA chunk to its stream —
+// the host of the (unique) static call to Stream.handleData. Today that is the
+// helper pushPayloadDataToStream; if it is inlined, its caller takes the role.
+func (c *RuleCtx) deliverFn() *ssa.Function {
+	sh := c.Fn("Stream.handleData")
+	sites := c.P.CallSitesOf(sh)
+	if len(sites) != 1 {
+		panic(unresolved{"the unique call site of Stream.handleData"})
+	}
+	return enclosingNamed(sites[0].Fn)
+}
